@@ -22,3 +22,9 @@ def run(ctx, res):
     if m.ok and len(m.oks) == 1:
         framing.rule_n_pres(prog, res, m)
     crcq.rule_a_crc(ctx, res)
+    # the acceptance predicate is the property only if every MessageFrame a caller can get hold of went through it: frames are built only by
+    # MessageFrame::new (no second constructor that skips the checks), and the iterator hands on exactly the scanner's frame
+    import bitio, engine as _eng
+    bitio.rule_p_pre(prog, _eng.Filtered(res, {"P-pre"}, key_contains={"P-pre": ("MessageFrame values are built only",)}))
+    framing.rules_iter(prog, _eng.Filtered(res, {"I-iter", "I-state"}))
+
